@@ -27,14 +27,15 @@ impl PiXY {
 
     fn from_spectrum_unchecked<S: State>(spectrum: &Spectrum<S>) -> Self {
         let (n1, n2) = if let &[n1, n2] = spectrum.shape().as_ref() {
-            (n1 - 1, n2 - 1)
+            // Saturating: an empty spectrum (an axis of length zero) has nothing to sum over
+            (n1.saturating_sub(1), n2.saturating_sub(1))
         } else {
             panic!("dimensions do not fit");
         };
 
         let num = (0..=n1)
             .flat_map(|m1| (0..=n2).map(move |m2| (m1, m2)))
-            .take(spectrum.elements() - 1)
+            .take(spectrum.elements().saturating_sub(1))
             .skip(1)
             .map(|(m1, m2)| {
                 let p1 = m1 * (n2 - m2);
